@@ -166,7 +166,8 @@ func c16Case(o *Out, r *Rng) {
 			hasSchemaBlock = true
 		}
 	}
-	emit := func(kind string, docsDefs [][]*sDef, docs []string, modOrder bool) {
+	var emit func(kind string, docsDefs [][]*sDef, docs []string, modOrder bool)
+	emitB := func(base c16Base, kind string, docsDefs [][]*sDef, docs []string, modOrder bool) {
 		a := c16Observe(docs)
 		sdlSame := a.ok == base.ok && (!a.ok || canonSDL(a.sdl, false) == canonSDL(base.sdl, false))
 		sdlSorted := a.ok == base.ok && (!a.ok || canonSDL(a.sdl, true) == canonSDL(base.sdl, true))
@@ -207,6 +208,22 @@ func c16Case(o *Out, r *Rng) {
 			Meta: map[string]interface{}{"arrangement": kind, "docs": docs, "base_ok": base.ok, "intro_diff": diff},
 			Nontrivial: true,
 		})
+	}
+	emit = func(kind string, docsDefs [][]*sDef, docs []string, modOrder bool) { emitB(base, kind, docsDefs, docs, modOrder) }
+	// a set that is ill-formed only across definitions: an interface extended with a field its implementers lack.
+	// One document and the split "everything, then the extension" must both be refused.
+	if r.Chance(35) {
+		for _, d := range set.defs {
+			if d.kind != "object" || len(d.ifaces) == 0 {
+				continue
+			}
+			ext := fmt.Sprintf("extend interface %s { extraC16: String }\n", d.ifaces[0])
+			whole := set.sdl(true) + ext
+			b2 := c16Observe([]string{whole})
+			o.Count("cross-definition-ill-formed")
+			emitB(b2, "split", [][]*sDef{set.defs, {}}, []string{set.sdl(true), ext}, false)
+			break
+		}
 	}
 	// permutations of the one-document form
 	for k := 0; k < 3; k++ {
@@ -351,7 +368,8 @@ func init() {
 	props["C16"] = func(o *Out, rng *Rng, tier string) {
 		// printed default values must not depend on Go's map iteration order
 		ggql.Sort = true
-		defer func() { ggql.Sort = false }()
+		tagUseNull = true
+		defer func() { ggql.Sort = false; tagUseNull = false }()
 		n := 500
 		if tier == "thorough" {
 			n = 20000
